@@ -1,5 +1,5 @@
 //! Reconnect lab (C14): a generated client over Endpoint::connect_with_connector[_lazy] with a scripted connector.
-//! Stimulus: {lazy: bool, script: ["F"|"S"|"D"...], calls: n}
+//! Stimulus: {lazy: bool, script: ["F"|"S"|"D"...], calls: n, connect_timeout: bool}
 //!   F / S: result of the next connector invocation (taken in order; exhausted script = F)
 //!   D    : the peer drops the established connection at the next quiescent point (before the next call)
 use crate::labs::call::{build_server, gen::svc::svc_client::SvcClient};
@@ -16,6 +16,7 @@ pub fn run(stim: &Value, rec: &Rec) {
     let script: Vec<String> = stim["script"].as_array().cloned().unwrap_or_default().iter().map(|v| v.as_str().unwrap_or("F").to_string()).collect();
     let lazy = stim["lazy"].as_bool().unwrap_or(true);
     let ncalls = stim["calls"].as_u64().unwrap_or(5);
+    let stim_ct = stim["connect_timeout"].as_bool().unwrap_or(false);
     let env = Arc::new(Mutex::new(Env { script, pos: 0, consumed: vec![], kills: vec![], invocations: 0 }));
     let log = rec.clone();
     let hook_log = rec.clone();
@@ -46,7 +47,9 @@ pub fn run(stim: &Value, rec: &Rec) {
                 }
             }
         });
-        let ep = tonic::transport::Endpoint::from_static("http://peer.test");
+        let mut ep = tonic::transport::Endpoint::from_static("http://peer.test");
+        // stim.connect_timeout: a connect timeout is configured (virtual time: it never fires, the scripted connector answers at once)
+        if stim_ct { ep = ep.connect_timeout(Duration::from_secs(5)); }
         let ch = if lazy { Ok(ep.connect_with_connector_lazy(connector)) } else { ep.connect_with_connector(connector).await };
         let consumed0 = std::mem::take(&mut env.lock().unwrap().consumed);
         let ch = match ch {
